@@ -349,6 +349,41 @@ func checkC05(c *h.Check) {
 			cases = append(cases, cs)
 		}
 	}
+	// a conflict inside a set of another package that two root packages of one invocation both use: each of the two
+	// must be rejected with the diagnostic (nothing is remembered from the first package to the second)
+	for variant := 0; variant < 4; variant++ {
+		b := ir.NewBuilder()
+		p, lib := b.Root, b.Lib
+		var t *ir.Type
+		var both []*ir.Item
+		switch variant {
+		case 0:
+			t = b.Leaf(lib, "T")
+			both = []*ir.Item{ir.FuncItem(&ir.Func{Pkg: lib, Name: "PfA", Out: t}), ir.FuncItem(&ir.Func{Pkg: lib, Name: "PfB", Out: t})}
+		case 1:
+			t = b.Leaf(lib, "T")
+			both = []*ir.Item{ir.FuncItem(&ir.Func{Pkg: lib, Name: "PfA", Out: t}), ir.ValueItem(t, 9003)}
+		case 2:
+			t = b.Iface(lib, "T")
+			conc := b.Leaf(lib, "Conc")
+			conc.Impls = []*ir.Type{t}
+			both = []*ir.Item{ir.FuncItem(&ir.Func{Pkg: lib, Name: "PfA", Out: t}), ir.FuncItem(&ir.Func{Pkg: lib, Name: "PConc", Out: conc}), ir.BindItem(t, conc)}
+		case 3:
+			t = b.Leaf(lib, "T")
+			inner := &ir.Set{Pkg: lib, Name: "Inner", Items: []*ir.Item{ir.FuncItem(&ir.Func{Pkg: lib, Name: "PfA", Out: t})}}
+			both = []*ir.Item{ir.SetRef(inner), ir.FuncItem(&ir.Func{Pkg: lib, Name: "PfB", Out: t})}
+		}
+		set := &ir.Set{Pkg: lib, Name: "Both", Items: both}
+		inj := &ir.Injector{Name: "Init", Out: t, Items: []*ir.Item{ir.SetRef(set)}}
+		prog := &ir.Program{Root: p, Injectors: []*ir.Injector{inj}}
+		cs := caseFromProgram(fmt.Sprintf("C05/conflict-inside-shared-set/variant=%d", variant), prog, false, nil)
+		reasons := []ir.Reason{{Class: "conflict", Subject: t.Key()}}
+		cs.Judge = func(r *h.Result) []h.Violation { return judgeVerdict(r, reasons) }
+		cs = withTwinRoot(cs)
+		if c.NoteProgram(cs.Files) {
+			cases = append(cases, cs)
+		}
+	}
 	results := c.JudgeAll(cases)
 	rej := 0
 	for _, r := range results {
@@ -364,7 +399,7 @@ func checkC05(c *h.Check) {
 	c.Coverage["programs_rejected"] = rej
 	c.Coverage["unordered_kind_pairs_covered"] = len(pairs)
 	c.Coverage["explorer"] = map[string]interface{}{"executions": st.Executions, "skipped": st.Skipped, "mode": "full product"}
-	c.Coverage["rule"] = "ordered pairs over 10 source kinds (func, struct value, struct pointer, value, interface value, binding, field, pointer-to-field, injector parameter, same set twice) x 6 placements x 5 contested type kinds (named, pointer, alias vs. original, []T written twice, interface) x 2 argument orders; inexpressible combinations skipped by the renderer; plus one set reached by its own name and through an aliasing variable, and one wire.FieldsOf call listing several fields of identical type. Every program must be rejected with a 'multiple bindings' diagnostic naming the contested type and must not produce output. Distinct = distinct rendered source."
+	c.Coverage["rule"] = "ordered pairs over 10 source kinds (func, struct value, struct pointer, value, interface value, binding, field, pointer-to-field, injector parameter, same set twice) x 6 placements x 5 contested type kinds (named, pointer, alias vs. original, []T written twice, interface) x 2 argument orders; inexpressible combinations skipped by the renderer; plus one set reached by its own name and through an aliasing variable, one wire.FieldsOf call listing several fields of identical type, and a conflict inside a set of another package used by two identical root packages of one invocation (both must be rejected alike). Every program must be rejected with a 'multiple bindings' diagnostic naming the contested type and must not produce output. Distinct = distinct rendered source."
 	if len(cases) > 0 {
 		i := len(cases) / 3
 		c.Samples = append(c.Samples, map[string]interface{}{"case": cases[i].ID, "wire.go": cases[i].Files["wire.go"], "diagnostics": results[i].Root().Diags})
